@@ -85,12 +85,16 @@ func c02Head(h int, fs []ref.Node) ref.Node {
 		return &ref.Path{Steps: []ref.Node{onName("a")}, Keep: true, KeepAt: -1}
 	case 10: // a.[b, a][p]: a predicate on an array-constructor step that is not the first step
 		return rpath(rname("a"), nested(&ref.Arr{Items: []ref.Node{rp("b"), rp("a")}}))
-	default: // a.(b)[p]: on a parenthesised step
+	case 11: // a.(b)[p]: on a parenthesised step
 		return rpath(rname("a"), nested(&ref.Paren{Exprs: []ref.Node{rp("b")}}))
+	case 12: // $[p].a: predicates on the context variable, followed by a step
+		return &ref.Path{Steps: []ref.Node{nested(rvar("")), rname("a")}, KeepAt: -1}
+	default: // ($v := $; $v[p].a): on a named variable, followed by a step
+		return &ref.Paren{Exprs: []ref.Node{&ref.Assign{Name: "v", Val: rvar("")}, &ref.Path{Steps: []ref.Node{nested(rvar("v")), rname("a")}, KeepAt: -1}}}
 	}
 }
 
-const c02NumHeads = 12
+const c02NumHeads = 14
 
 func c02SpecialDocs() []interface{} {
 	o := func(kv ...interface{}) map[string]interface{} {
@@ -111,6 +115,7 @@ func c02SpecialDocs() []interface{} {
 		o("a", []interface{}{o("b", o("a", 1.0)), o("b", o("a", 0.0)), o("b", "x")}),
 		o("a", []interface{}{o("b", 1.0, "a", 1.0), o("b", "x", "a", "x"), o("b", 3.0, "a", 1.0)}), // members of different kinds in different elements
 		o("a", []interface{}{o("b", 1.0, "a", 2.0), o("b", 3.0, "a", 4.0)}),
+		[]interface{}{o("a", 1.0, "b", 1.0), o("a", 2.0, "b", "x"), o("a", 3.0, "b", 1.0)}, // an array at the top: anchored heads do not map over it
 	}
 }
 
